@@ -4,8 +4,10 @@ mod alloc;
 mod auth;
 mod builder;
 mod c07;
+mod c08;
 mod c11;
 mod c12;
+mod c18;
 mod c19;
 mod c20;
 mod cborx;
@@ -31,8 +33,10 @@ fn main() {
         "auth-replay" => auth::main(rest),
         "envelope-replay" => envelope::main(rest),
         "c07-replay" => c07::main(rest),
+        "c08-replay" => c08::main(rest),
         "c11-replay" => c11::main(rest),
         "c12-replay" => c12::main(rest),
+        "c18-replay" => c18::main(rest),
         "c19-replay" => c19::main(rest),
         "c20-replay" => c20::main(rest),
         "builder-replay" => builder::main(rest),
